@@ -232,21 +232,51 @@ def p8_clone_remap(prog):
             continue
         f = cands[0]
         r.inst(f.path)
-        bodies = [f] + f.closures()
-        remap_calls = 0
-        for g in bodies:
-            for b, t in g.body.calls():
-                fn = t['f']
-                if fn['name'] == 'clone_with_new_identifier':
-                    remap_calls += 1
-                # forbidden: cloning slots wholesale
-                if fn['name'] in ('clone', 'clone_from', 'to_vec', 'extend_from_slice', 'to_owned', 'cloned', 'copied', 'clone_into') and t['args']:
-                    at = peel_refs(g.body.place_ty(op_place(t['args'][0]))) if op_place(t['args'][0]) else None
-                    if at is not None and ty_mentions(at, lambda n: is_adt(n, 'Slot') or is_adt(n, 'Location')):
-                        r.viol('P8', '%s/wholesale-%s' % (f.path, fn['name']), g.loc(t['ln']),
-                               '%s of slots/locations without remapping archetype identifiers: the copy would point into the source world\'s identifier buffers' % fn['name'])
-        if remap_calls == 0:
-            r.viol('P8', '%s/no-remap' % f.path, f.loc(), 'no call to Slot::clone_with_new_identifier')
+        E = pathsem.analyse(prog, f)
+        rets = [p for p in E.paths if p.ended == 'return']
+        if E.truncated or not rets:
+            r.viol('P8', '%s/not-analysable' % f.path, f.loc(), 'path enumeration cut off')
+            continue
+        slots_i = adt_field_index(prog, 'entity::allocator::Allocator', 'slots')
+        src_p = 1 if name == 'clone' else 2
+        idm = f.body.arg_local('identifier_map')
+        ORDERED = ('iter', 'into_iter', 'map', 'by_ref', 'copied', 'cloned', 'inspect')
+        reported = set()
+        for p in rets:
+            # forbidden: cloning slots wholesale
+            for e in p.calls(lambda e: e['name'] in ('clone', 'clone_from', 'to_vec', 'extend_from_slice', 'to_owned', 'cloned', 'copied', 'clone_into', 'clone_from_slice', 'copy_from_slice')):
+                tys = [a_ for a_ in e['f'].get('args', []) if a_.get('k') != 'region']
+                if tys and ty_mentions(tys[0], lambda n: is_adt(n, 'Slot') or is_adt(n, 'Location')) and e['name'] not in reported:
+                    reported.add(e['name'])
+                    r.viol('P8', '%s/wholesale-%s' % (f.path, e['name']), f.loc(e['ln']),
+                           '%s of slots/locations without remapping archetype identifiers: the copy would point into the source world\'s identifier buffers' % e['name'])
+            good = []
+            for ce in [e for e in p.events if e['k'] == 'consume_end']:
+                x = ce['elem']
+                if not (isinstance(x, tuple) and x[0] == 'call' and x[1].endswith('::clone_with_new_identifier') and 'Slot' in x[1] and len(x[2]) == 2):
+                    continue
+                el, m = pathsem.strip_refs(x[2][0]), pathsem.strip_refs(x[2][1])
+                if not (isinstance(el, tuple) and el[0] == 'elem'):
+                    continue
+                root, kinds = pathsem.iter_chain(el[1])
+                src_ok = pathsem.is_field_of(root, 'entity::allocator::Allocator', slots_i) and pathsem.mentions(root, lambda t: t[0] == 'p' and t[1] == src_p) and all(k in ORDERED for k in kinds)
+                if src_ok and m == ('p', idm, 'identifier_map'):
+                    good.append(ce)
+            if not good and 'nr' not in reported:
+                reported.add('nr')
+                r.viol('P8', '%s/no-remap' % f.path, f.loc(), 'the new slots are not produced by mapping Slot::clone_with_new_identifier(.., identifier_map) over the source slots in order')
+                continue
+            # where the remapped slots go
+            if good:
+                cons = [e for e in p.calls(lambda e: e.get('consumer')) if e['i'] < good[0]['i']]
+                c = cons[-1] if cons else None
+                if name == 'clone':
+                    ok = c is not None and isinstance(p.ret, tuple) and p.ret[0] == 'agg' and len(p.ret[4]) > slots_i and p.ret[4][slots_i] == c['ret']
+                else:
+                    ok = c is not None and pathsem.is_field_of(c['args'][0], 'entity::allocator::Allocator', slots_i) and pathsem.mentions(c['args'][0], lambda t: t[0] == 'p' and t[1] == 1)
+                if not ok and 'sink' not in reported:
+                    reported.add('sink')
+                    r.viol('P8', '%s/remapped-slots-not-stored' % f.path, f.loc(), 'the remapped slots do not become the %s allocator\'s slots' % ('new' if name == 'clone' else 'destination'))
     # Slot/Location::clone_with_new_identifier: result identifier data-dependent on identifier_map.get
     for owner in ('slot::Slot', 'location::Location'):
         cands = [f for f in prog.fns.values() if f.name == 'clone_with_new_identifier' and owner in f.path]
